@@ -11,6 +11,7 @@ package main
 
 import (
 	"context"
+	"encoding/xml"
 	"errors"
 	"fmt"
 	"math"
@@ -43,13 +44,14 @@ type recorder struct {
 	hops      []string      // Location of the i-th answer while i < len(hops)
 	hopStatus int           // the 3xx status of those answers
 	cut       int           // see body.Cut (applies to the final answer)
+	chunk     int           // see body.Chunk
 	arrived   chan struct{} // non-nil: the first request signals here and then waits for the client to go away
 }
 
 func (r *recorder) reset(status int, body string) {
 	r.mu.Lock()
 	r.events, r.requests, r.status, r.body = nil, nil, status, body
-	r.hops, r.hopStatus, r.arrived, r.cut = nil, 0, nil, 0
+	r.hops, r.hopStatus, r.arrived, r.cut, r.chunk = nil, 0, nil, 0, 0
 	r.mu.Unlock()
 }
 
@@ -59,7 +61,7 @@ func (r *recorder) ServeHTTP(w http.ResponseWriter, q *http.Request) {
 	r.requests = append(r.requests, request{q.Method, "http://" + q.Host + q.RequestURI})
 	status, body := r.status, r.body
 	n := len(r.requests)
-	hops, hopStatus, arrived, cut := r.hops, r.hopStatus, r.arrived, r.cut
+	hops, hopStatus, arrived, cut, chunk := r.hops, r.hopStatus, r.arrived, r.cut, r.chunk
 	r.mu.Unlock()
 	if arrived != nil && n == 1 {
 		close(arrived)
@@ -92,6 +94,25 @@ func (r *recorder) ServeHTTP(w http.ResponseWriter, q *http.Request) {
 			}
 		}
 	}
+	if chunk > 0 && status != 304 && status != 204 {
+		// the body trickles in: every piece is flushed and given time to arrive on its own, so
+		// that the client's reads end inside multi-byte characters
+		w.Header().Set("Content-Type", "text/xml")
+		w.WriteHeader(status)
+		fl, _ := w.(http.Flusher)
+		for i := 0; i < len(body); i += chunk {
+			j := i + chunk
+			if j > len(body) {
+				j = len(body)
+			}
+			w.Write([]byte(body[i:j]))
+			if fl != nil {
+				fl.Flush()
+			}
+			time.Sleep(120 * time.Microsecond)
+		}
+		return
+	}
 	w.Header().Set("Content-Type", "text/xml")
 	w.WriteHeader(status)
 	if status != 304 && status != 204 {
@@ -100,13 +121,18 @@ func (r *recorder) ServeHTTP(w http.ResponseWriter, q *http.Request) {
 }
 
 type limiter struct {
-	rec  *recorder
-	fail bool
+	rec     *recorder
+	fail    bool
+	foreign bool // the limiter of another Datasource
 }
 
 func (l *limiter) Wait(ctx context.Context) error {
 	l.rec.mu.Lock()
-	l.rec.events = append(l.rec.events, 1)
+	if l.foreign {
+		l.rec.events = append(l.rec.events, 3)
+	} else {
+		l.rec.events = append(l.rec.events, 1)
+	}
 	l.rec.mu.Unlock()
 	if l.fail {
 		return errors.New("limiter: no tokens")
@@ -164,6 +190,7 @@ func (c call) hasNOpts() bool { return c.Code == 12 || c.Code == 13 }
 func (c call) hasBounds() bool { return c.Code == 7 || c.Code == 12 }
 
 type body struct {
+	Chunk   int // > 0: the body is delivered in pieces of this many bytes, each flushed on its own
 	Cut     int // 0 whole body; 1 the server sends half of it under a larger Content-Length and closes; 2 half of it in a chunk that never completes
 	Kind    int // 0 malformed, 1 osm, 2 osmChange
 	Els     []el
@@ -180,24 +207,61 @@ type observed struct {
 	Data     []el
 	Panicked bool
 	ErrText  string
+	// ContentOK: every returned element carries the text the server sent for it
+	ContentOK bool
+}
+
+// every element carries a text (user / display name / first comment) that is a function of its
+// kind and id, so that the harness can tell whether the content the server sent comes back
+// unchanged.  Most are non-ASCII (2-, 3- and 4-byte sequences, combining marks).
+var contentTexts = []string{"name", "Zo\u00eb M\u00fcller", "\u65e5\u672c\u8a9e\u306e\u540d\u524d", "\U0001d11e clef \U0001f5fa map", "a&b <c> \"d\" 'e'",
+	"\u0418\u0432\u0430\u043d \u041f\u0435\u0442\u0440\u043e\u0432", "e\u0301a\u0300o\u0302 combining", "\u00e9", "ascii only user", "\u4e2d\u6587\u00e9\U0001f600\u00e9\u4e2d"}
+
+func textOf(kind, id int64) string {
+	h := uint64(kind)*1000003 + uint64(id)*2654435761
+	h ^= h >> 17
+	return contentTexts[h%uint64(len(contentTexts))]
+}
+
+func xmlEsc(t string) string {
+	var sb strings.Builder
+	xml.EscapeText(&sb, []byte(t))
+	return sb.String()
+}
+
+// contentOK is cleared when a returned element does not carry the text the server sent for it
+var contentOK = true
+
+func chk(kind, id int64, text string) {
+	if text != textOf(kind%10, id) {
+		contentOK = false
+	}
 }
 
 func elXML(e el) string {
+	t := xmlEsc(textOf(e.Kind, e.ID))
 	switch e.Kind {
 	case 1:
-		return fmt.Sprintf(`<node id="%d" lat="1.5" lon="2.5" version="1"/>`, e.ID)
+		return fmt.Sprintf(`<node id="%d" lat="1.5" lon="2.5" version="1" user="%s"/>`, e.ID, t)
 	case 2:
-		return fmt.Sprintf(`<way id="%d" version="2"><nd ref="1"/><tag k="a" v="b"/></way>`, e.ID)
+		return fmt.Sprintf(`<way id="%d" version="2" user="%s"><nd ref="1"/><tag k="a" v="b"/></way>`, e.ID, t)
 	case 3:
-		return fmt.Sprintf(`<relation id="%d" version="3"><member type="node" ref="1" role="x"/></relation>`, e.ID)
+		return fmt.Sprintf(`<relation id="%d" version="3" user="%s"><member type="node" ref="1" role="x"/></relation>`, e.ID, t)
 	case 4:
-		return fmt.Sprintf(`<changeset id="%d" open="false" user="u" uid="7"><tag k="comment" v="c"/></changeset>`, e.ID)
+		return fmt.Sprintf(`<changeset id="%d" open="false" user="%s" uid="7"><tag k="comment" v="c"/></changeset>`, e.ID, t)
 	case 5:
-		return fmt.Sprintf(`<note lon="1.5" lat="2.5"><id>%d</id><status>open</status></note>`, e.ID)
+		return fmt.Sprintf(`<note lon="1.5" lat="2.5"><id>%d</id><status>open</status><comments><comment><text>%s</text></comment></comments></note>`, e.ID, t)
 	case 6:
-		return fmt.Sprintf(`<user id="%d" display_name="name"><description>d</description></user>`, e.ID)
+		return fmt.Sprintf(`<user id="%d" display_name="%s"><description>d</description></user>`, e.ID, t)
 	}
 	panic("kind")
+}
+
+func noteText(n *osm.Note) string {
+	if len(n.Comments) == 0 {
+		return ""
+	}
+	return n.Comments[0].Text
 }
 
 func elsXML(l []el) string {
@@ -234,21 +298,27 @@ func osmEls(o *osm.OSM, tag int64) []el {
 	}
 	for _, n := range o.Nodes {
 		l = append(l, el{tag + 1, int64(n.ID)})
+		chk(1, int64(n.ID), n.User)
 	}
 	for _, w := range o.Ways {
 		l = append(l, el{tag + 2, int64(w.ID)})
+		chk(2, int64(w.ID), w.User)
 	}
 	for _, r := range o.Relations {
 		l = append(l, el{tag + 3, int64(r.ID)})
+		chk(3, int64(r.ID), r.User)
 	}
 	for _, c := range o.Changesets {
 		l = append(l, el{tag + 4, int64(c.ID)})
+		chk(4, int64(c.ID), c.User)
 	}
 	for _, n := range o.Notes {
 		l = append(l, el{tag + 5, int64(n.ID)})
+		chk(5, int64(n.ID), noteText(n))
 	}
 	for _, u := range o.Users {
 		l = append(l, el{tag + 6, int64(u.ID)})
+		chk(6, int64(u.ID), u.Name)
 	}
 	return l
 }
@@ -311,6 +381,7 @@ func run(ctx context.Context, ds *osmapi.Datasource, c call) (hasData bool, data
 			if n == nil {
 				return false, nil
 			}
+			chk(1, int64(n.ID), n.User)
 			return true, []el{{1, int64(n.ID)}}
 		})
 	}
@@ -319,6 +390,7 @@ func run(ctx context.Context, ds *osmapi.Datasource, c call) (hasData bool, data
 			if n == nil {
 				return false, nil
 			}
+			chk(2, int64(n.ID), n.User)
 			return true, []el{{2, int64(n.ID)}}
 		})
 	}
@@ -327,6 +399,7 @@ func run(ctx context.Context, ds *osmapi.Datasource, c call) (hasData bool, data
 			if n == nil {
 				return false, nil
 			}
+			chk(3, int64(n.ID), n.User)
 			return true, []el{{3, int64(n.ID)}}
 		})
 	}
@@ -335,6 +408,7 @@ func run(ctx context.Context, ds *osmapi.Datasource, c call) (hasData bool, data
 			var d []el
 			for _, n := range l {
 				d = append(d, el{1, int64(n.ID)})
+				chk(1, int64(n.ID), n.User)
 			}
 			return e == nil, d
 		})
@@ -344,6 +418,7 @@ func run(ctx context.Context, ds *osmapi.Datasource, c call) (hasData bool, data
 			var d []el
 			for _, n := range l {
 				d = append(d, el{2, int64(n.ID)})
+				chk(2, int64(n.ID), n.User)
 			}
 			return e == nil, d
 		})
@@ -353,6 +428,7 @@ func run(ctx context.Context, ds *osmapi.Datasource, c call) (hasData bool, data
 			var d []el
 			for _, n := range l {
 				d = append(d, el{3, int64(n.ID)})
+				chk(3, int64(n.ID), n.User)
 			}
 			return e == nil, d
 		})
@@ -362,6 +438,7 @@ func run(ctx context.Context, ds *osmapi.Datasource, c call) (hasData bool, data
 			var d []el
 			for _, n := range l {
 				d = append(d, el{5, int64(n.ID)})
+				chk(5, int64(n.ID), noteText(n))
 			}
 			return e == nil, d
 		})
@@ -455,6 +532,7 @@ func run(ctx context.Context, ds *osmapi.Datasource, c call) (hasData bool, data
 			if cs == nil {
 				return false, nil
 			}
+			chk(4, int64(cs.ID), cs.User)
 			return true, []el{{4, int64(cs.ID)}}
 		})
 	case 10:
@@ -475,6 +553,7 @@ func run(ctx context.Context, ds *osmapi.Datasource, c call) (hasData bool, data
 			if n == nil {
 				return false, nil
 			}
+			chk(5, int64(n.ID), noteText(n))
 			return true, []el{{5, int64(n.ID)}}
 		})
 	case 12:
@@ -487,6 +566,7 @@ func run(ctx context.Context, ds *osmapi.Datasource, c call) (hasData bool, data
 			if u == nil {
 				return false, nil
 			}
+			chk(6, int64(u.ID), u.Name)
 			return true, []el{{6, int64(u.ID)}}
 		})
 	}
@@ -578,6 +658,7 @@ func putObserved(c *wire.Case, o observed) {
 	c.Int(o.Class).Bool(o.NotFound).Bool(o.HasData)
 	putEls(c, o.Data)
 	c.Bool(o.Panicked)
+	c.Bool(o.ContentOK)
 }
 
 // world: everything outside the package that the call meets
@@ -587,6 +668,11 @@ type world struct {
 	Follow    bool     // client follows redirects (default policy) or hands the 3xx back
 	Hops      []string // absolute Locations of the redirect answers preceding the final one
 	HopStatus int
+	// ClientNil: the Datasource has no Client of its own (the package's DefaultDatasource.Client is
+	// used); DefaultLimiter: DefaultDatasource has a limiter of its own, which is none of this
+	// Datasource's business (its Wait would be recorded as event 3)
+	ClientNil      bool
+	DefaultLimiter bool
 }
 
 func plain(lim int) world { return world{Lim: lim, Follow: true, HopStatus: 302} }
@@ -636,7 +722,7 @@ func (e *env) perform(base string, w world, k call, status int, b body) observed
 	lim := w.Lim
 	e.rec.reset(status, b.xml())
 	e.rec.mu.Lock()
-	e.rec.hops, e.rec.hopStatus, e.rec.cut = w.Hops, w.HopStatus, b.Cut
+	e.rec.hops, e.rec.hopStatus, e.rec.cut, e.rec.chunk = w.Hops, w.HopStatus, b.Cut, b.Chunk
 	var arrived chan struct{}
 	if w.Ctx == 2 {
 		arrived = make(chan struct{})
@@ -648,6 +734,14 @@ func (e *env) perform(base string, w world, k call, status int, b body) observed
 		client = e.noFollow
 	}
 	ds := &osmapi.Datasource{BaseURL: base, Client: client}
+	if w.ClientNil {
+		ds.Client = nil
+		osmapi.DefaultDatasource.Client = client
+	}
+	if w.DefaultLimiter {
+		osmapi.DefaultDatasource.Limiter = &limiter{rec: e.rec, foreign: true}
+	}
+	defer func() { osmapi.DefaultDatasource.Limiter = nil }()
 	if lim > 0 {
 		ds.Limiter = &limiter{rec: e.rec, fail: lim == 2}
 	}
@@ -664,11 +758,12 @@ func (e *env) perform(base string, w world, k call, status int, b body) observed
 			cancel()
 		}()
 	}
+	contentOK = true
 	hasData, data, err, panicked := run(ctx, ds, k)
 	cancel()
 	e.rec.mu.Lock()
 	ob := observed{Events: append([]int64(nil), e.rec.events...), Requests: append([]request(nil), e.rec.requests...),
-		Class: errClass(err), NotFound: ds.NotFound(err), HasData: hasData, Data: data, Panicked: panicked}
+		Class: errClass(err), NotFound: ds.NotFound(err), HasData: hasData, Data: data, Panicked: panicked, ContentOK: contentOK}
 	e.rec.mu.Unlock()
 	if err != nil {
 		ob.ErrText = err.Error()
@@ -738,10 +833,12 @@ func describe(base string, w world, k call, status int, b body, ob observed) map
 	desc := map[string]interface{}{
 		"base_url": base, "limiter": []string{"none", "ok", "fails"}[lim], "call": k.name(),
 		"context": []string{"live", "cancelled before the call", "cancelled while the request is in flight"}[w.Ctx],
+		"datasource_client_is_nil(DefaultDatasource.Client used)": w.ClientNil, "DefaultDatasource_has_its_own_limiter": w.DefaultLimiter,
 		"client_follows_redirects": w.Follow, "redirect_locations": w.Hops, "redirect_status": w.HopStatus,
-		"status": status, "body": b.xml(), "body_cut_short(0 no,1 content-length,2 chunk)": b.Cut,
+		"status": status, "body": b.xml(), "body_cut_short(0 no,1 content-length,2 chunk)": b.Cut, "body_delivered_in_pieces_of_bytes(0 = at once)": b.Chunk,
 		"observed": map[string]interface{}{"events(1=wait,2=request)": ob.Events, "requests": ob.Requests, "error_class": ob.Class,
-			"error": ob.ErrText, "not_found": ob.NotFound, "has_data": ob.HasData, "data(kind,id)": ob.Data, "panicked": ob.Panicked},
+			"error": ob.ErrText, "not_found": ob.NotFound, "has_data": ob.HasData, "data(kind,id)": ob.Data, "panicked": ob.Panicked,
+			"returned_elements_carry_the_text_the_server_sent": ob.ContentOK},
 	}
 	args := map[string]interface{}{}
 	switch k.Code {
@@ -789,6 +886,9 @@ var bases = []string{
 	"http://osm.test/a/b/c",
 	"http://osm.test/api/0.6/", // trailing slash
 	"http://127.0.0.1:9/x",
+	"http://osm.test/OSM%20Mirror/api/0.6",                           // percent-escaped mount point
+	"http://proxy.test/fetch/https%3A%2F%2Fapi.osm.org/api/0.6",      // an escaped URL inside the path
+	"http://osm.test/100%25/api",                                      // an escaped percent sign
 }
 
 var idBoundaries = []int64{0, 1, 2, 9, 10, 11, 99, 100, 101, 999999, 1000000, 2147483647, 2147483648, 4294967295, 4294967296,
@@ -1317,6 +1417,83 @@ func main() {
 		runtime.GOMAXPROCS(procs)
 	}
 
+	// 11. content and delivery: non-ASCII element texts, bodies trickling in in pieces of 1..7 bytes
+	//     (reads end inside multi-byte characters) and bodies larger than the 4 KiB buffers
+	for _, v := range vs {
+		for _, chunk := range []int{1, 2, 3, 7} {
+			if (v.code+v.elem+chunk)%2 == 0 && a.Tier != "thorough" {
+				continue
+			}
+			k := randCall(rng, v.code, v.elem)
+			k.NOpts = validOnly(k.NOpts)
+			b := randBody(rng, k)
+			if b.Kind == 0 || b.Cut > 0 {
+				b = okBody(k)
+			}
+			b.Chunk = chunk
+			c, ob := e.doCaseW("trickle", bases[2], plain(0), k, 200, b)
+			add(c, ob)
+			w.Count(fmt.Sprintf("chunk:%d", chunk))
+		}
+	}
+	for _, v := range vs {
+		if v.code == 10 || (call{Code: v.code, Elem: v.elem}).wantKind() == 0 || shapeOne(call{Code: v.code}) {
+			continue
+		}
+		nbig := 120 // ~12 KiB of elements; thorough: ~500 KiB
+		if a.Tier == "thorough" {
+			nbig = 4000
+		}
+		k := randCall(rng, v.code, v.elem)
+		k.NOpts = validOnly(k.NOpts)
+		b := body{Kind: 1, Els: randEls(rng, k.wantKind(), nbig, false)}
+		if v.code%2 == 0 {
+			b.Chunk = 4093 // a prime just below the buffer size
+		}
+		c, ob := e.doCaseW("big-body", bases[2], plain(0), k, 200, b)
+		add(c, ob)
+	}
+	// 12. a Datasource without a Client of its own (the package default client is used), with its
+	//     own limiter in every mode, while DefaultDatasource has or has not a limiter of its own
+	for _, v := range vs {
+		for lim := 0; lim < 3; lim++ {
+			for _, dl := range []bool{false, true} {
+				if (v.code+v.elem+lim)%3 != 0 && a.Tier != "thorough" {
+					continue
+				}
+				k := randCall(rng, v.code, v.elem)
+				k.NOpts = validOnly(k.NOpts)
+				wd := plain(lim)
+				wd.ClientNil, wd.DefaultLimiter = true, dl
+				c, ob := e.doCaseW("client-nil", bases[2+rng.Intn(3)], wd, k, 200, okBody(k))
+				add(c, ob)
+				w.Count(fmt.Sprintf("client_nil_limiter:%d", lim))
+			}
+		}
+	}
+	// 13. long request targets: just below / at / above the sizes servers and proxies use as limits
+	//     (the answer, not the length, decides the result); bigger ones in the thorough tier
+	{
+		lengths := []int{2047, 2048, 2049, 4096, 4097, 8176, 8177, 8189, 8190, 8191, 8192, 8193}
+		if a.Tier == "thorough" {
+			lengths = append(lengths, 16384, 16385, 32768, 32769, 65535, 65536, 65537)
+		}
+		for i, L := range lengths {
+			base := []string{"http://osm.test/api/0.6", "http://osm.test", "http://osm.test:8080/a/rather/long/mount/point/api/0.6"}[i%3]
+			elem := i % 3
+			k := call{Code: 1, Elem: elem, IDs: idsForURLLen(base, elemNames[elem]+"s", L)}
+			st := []int{200, 200, 200, 414, 404}[i%5]
+			c, ob := e.doCaseW("long-url", base, plain(i%2), k, st, okBody(k))
+			add(c, ob)
+			w.Count(fmt.Sprintf("url_length:%d", L))
+			if L >= 8189 && L <= 8193 {
+				q := call{Code: 13, Q: strings.Repeat("a", L-len(base)-len("/notes/search?q="))}
+				c, ob := e.doCaseW("long-url", base, plain(0), q, 200, okBody(q))
+				add(c, ob)
+			}
+		}
+	}
+
 	// canaries: one corrupted observation per observable class; Coq must flag exactly these
 	{
 		mk := func(mut func(ob *observed), k call, st int, lim int) {
@@ -1387,6 +1564,7 @@ func main() {
 			encodeCase(c2, "http://osm.test/api/0.6", plain(0), k, st, b, ob)
 			w.Add(c2)
 		}
+		mkb(func(ob *observed) { ob.ContentOK = false }, get, 200, okBody(get))
 		cutBody := okBody(get)
 		cutBody.Cut = 1
 		mkb(func(ob *observed) { ob.Class, ob.NotFound = 6, false }, get, 404, cutBody)
@@ -1433,4 +1611,26 @@ func shapeOne(k call) bool {
 		return true
 	}
 	return false
+}
+
+// idsForURLLen returns ids such that base + "/<plural>?<plural>=" + the comma-joined ids is
+// exactly L bytes long (ten-digit ids, some eleven-digit ones to fill up)
+func idsForURLLen(base, plural string, L int) []int64 {
+	rest := L - len(base) - len("/"+plural+"?"+plural+"=")
+	if rest < 10 {
+		return []int64{1}
+	}
+	n := (rest + 1) / 11
+	extra := rest - (n*11 - 1)
+	ids := make([]int64, n)
+	for i := range ids {
+		ids[i] = 1000000000 + int64(i)*7919%8999999999
+		if ids[i] < 1000000000 {
+			ids[i] += 1000000000
+		}
+		if i < extra {
+			ids[i] = ids[i]*10 + 3 // eleven digits
+		}
+	}
+	return ids
 }
